@@ -119,8 +119,14 @@ class Vector:
         )
 
     def from_new_message(self, msg: message.NewVector):
+        if not isinstance(msg, getattr(self, "new_message_class", ())):
+            # message of another kind than this property (lights are read only)
+            return
+
         for child in msg.children:
-            self._elements_by_name[child.name].set_value_from_message(child)
+            element = self._elements_by_name.get(child.name)
+            if element is not None:
+                element.set_value_from_message(child)
 
 
 class NumberVector(Vector):
